@@ -62,19 +62,22 @@ Theorem T_takingiterator_next : tags_ok allowed_tags takingiterator_next = true.
 Theorem T_takingiterator_next_back : tags_ok allowed_tags takingiterator_next_back = true. Proof. reflexivity. Qed.
 
 (* ---------- tactics: both sides are straight-line; compute, split on what the heap holds ---------- *)
-Ltac simp := cbn; unfold prevof, nextof, with_env, with_heap; cbn.
+Ltac simp := cbn; unfold eval_ptr, prevof, nextof, with_env, with_heap; cbn.
 Ltac hyp_rw := repeat match goal with E : ?x = _ |- context [?x] => rewrite E end.
 Ltac case_on t := let E := fresh "E" in destruct t eqn:E; repeat (simp; hyp_rw); try reflexivity.
+(* split on the next thing either side is stuck on: a write or a lookup in a heap that is a variable *)
+Ltac split_one :=
+  match goal with
+  | |- context [set_next ?h ?a ?b] => case_on (set_next h a b)
+  | |- context [set_prev ?h ?a ?b] => case_on (set_prev h a b)
+  | |- context [?h ?a] => is_var h; match type of h with heap => case_on (h a) end
+  end.
+Ltac crunch := repeat (simp; hyp_rw); try reflexivity; repeat split_one.
 
 (* ---------- EntryPtr::unhinge = unhinge ---------- *)
 Theorem P_entryptr_unhinge : forall h a,
   result (run entryptr_unhinge [VPtr a] [] h) = (h' <- unhinge h a ;; Some (h', None)).
-Proof.
-  intros h a. unfold run, unhinge. simp.
-  case_on (h a).
-  case_on (set_next h (nprev n) (nnext n)).
-  case_on (set_prev h0 (nnext n) (nprev n)).
-Qed.
+Proof. intros h a. unfold run, unhinge. crunch. Qed.
 
 (* ---------- EntryPtr::insert = link_between ----------
    link_between checks first that the entry itself is allocated (`let entry_mut = self.get_mut()`); in the program
@@ -101,23 +104,13 @@ Qed.
 
 Theorem P_entryptr_insert : forall h a p x,
   result (run entryptr_insert [VPtr a; VPtr p; VPtr x] [] h) = (h' <- link_between h a p x ;; Some (h', None)).
-Proof.
-  intros h a p x. rewrite link_between_writes. unfold run. simp.
-  case_on (set_next h p a).
-  case_on (set_prev h0 x a).
-  case_on (set_next h1 a x).
-  case_on (set_prev h2 a p).
-Qed.
+Proof. intros h a p x. rewrite link_between_writes. unfold run. crunch. Qed.
 
 (* ---------- Entry::unhinge (the entry has been taken out of its bucket and is held by value) ---------- *)
 Theorem P_entry_unhinge : forall h n,
   result (run entry_unhinge [VNode n] [] h) =
   (h1 <- set_next h (nprev n) (nnext n) ;; h2 <- set_prev h1 (nnext n) (nprev n) ;; Some (h2, None)).
-Proof.
-  intros h n. unfold run. simp.
-  case_on (set_next h (nprev n) (nnext n)).
-  case_on (set_prev h0 (nnext n) (nprev n)).
-Qed.
+Proof. intros h n. unfold run. crunch. Qed.
 (* ... which is `unhinge` of the bucket it was read from *)
 Theorem P_entry_unhinge_at : forall h a n, h a = Some n ->
   result (run entry_unhinge [VNode n] [] h) = (h' <- unhinge h a ;; Some (h', None)).
@@ -126,29 +119,175 @@ Proof.
   destruct (set_next h (nprev n) (nnext n)); cbn [bind]; reflexivity.
 Qed.
 
-(* ---------- LruCache::set_head = set_head ---------- *)
+(* ---------- LruCache::set_head = set_head (the call of EntryPtr::insert is executed, not assumed) ---------- *)
 Theorem P_lrucache_set_head : forall h seal a,
   result (run lrucache_set_head [VPtr seal; VPtr a] [] h) = (h' <- set_head h seal a ;; Some (h', None)).
 Proof.
-  intros h seal a. unfold set_head, run. simp.
-  case_on (h seal). rewrite link_between_writes.
-  case_on (set_next h seal a).
-  case_on (set_prev h0 (nnext n) a).
-  case_on (set_next h1 a (nnext n)).
-  case_on (set_prev h2 a seal).
+  intros h seal a. unfold set_head, run. simp. case_on (h seal). rewrite link_between_writes. crunch.
 Qed.
 
 (* ---------- LruCache::touch_ptr = touch_ptr ---------- *)
 Theorem P_lrucache_touch_ptr : forall h seal a,
   result (run lrucache_touch_ptr [VPtr seal; VPtr a] [] h) = (h' <- touch_ptr h seal a ;; Some (h', None)).
 Proof.
-  intros h seal a. unfold touch_ptr, unhinge, set_head, run. simp.
-  case_on (h a).
-  case_on (set_next h (nprev n) (nnext n)).
-  case_on (set_prev h0 (nnext n) (nprev n)).
-  case_on (h1 seal). rewrite link_between_writes.
-  case_on (set_next h1 seal a).
-  case_on (set_prev h2 (nnext n0) a).
-  case_on (set_next h3 a (nnext n0)).
-  case_on (set_prev h4 a seal).
+  intros h seal a. unfold touch_ptr, unhinge, set_head, run. crunch.
+  all: rewrite ?link_between_writes; crunch.
 Qed.
+
+(* ---------- LruCache::clear and Drain::new: the two writes that empty the list ---------- *)
+Definition seal_reset (h : heap) (seal : addr) : option heap :=
+  h1 <- set_next h seal seal ;; set_prev h1 seal seal.
+(* this is what OpsB.b_reset does to the links *)
+Theorem b_reset_seal_reset : forall g,
+  b_reset g = (h2 <- seal_reset (gh g) (gseal g) ;;
+               Some {| gh := fold_left free (glist g) h2; gseal := gseal g; glist := [] |}).
+Proof. intros g. unfold b_reset, seal_reset. destruct (set_next (gh g) (gseal g) (gseal g)); reflexivity. Qed.
+
+Theorem P_lrucache_clear : forall h seal,
+  result (run lrucache_clear [VPtr seal] [] h) = (h' <- seal_reset h seal ;; Some (h', None)).
+Proof. intros h seal. unfold run, seal_reset. crunch. Qed.
+Theorem P_drain_new : forall h seal,
+  result (run drain_new [VPtr seal] [] h) = (h' <- seal_reset h seal ;; Some (h', None)).
+Proof. intros h seal. unfold run, seal_reset. crunch. Qed.
+(* the cursor of the drain is taken BEFORE the list is emptied *)
+Theorem P_drain_new_cursor_first :
+  hd_error (flatten (fn_body drain_new)) = Some (SOpaque "TakingIterator::new").
+Proof. reflexivity. Qed.
+
+(* ---------- LruCache::move_to_table ----------
+   outside the loop nothing touches the pointer structure *)
+Theorem P_lrucache_move_to_table : forall h seal,
+  result (run lrucache_move_to_table [VPtr seal] [] h) = Some (h, None).
+Proof. reflexivity. Qed.
+(* the loop body, for the entry `n` the old table's iterator moved out of bucket `a` (the old bucket is modelled
+   as gone at once, as in Heap.move) and the bucket `a'` the new table picks = move *)
+Theorem P_lrucache_move_to_table_loop : forall h a a',
+  move h a a' = match h a with
+                | Some n => h' <- result (run lrucache_move_to_table_loop [VNode n] [a'] (free h a)) ;; Some (fst h')
+                | None => None
+                end.
+Proof. intros h a a'. unfold move, run. case_on (h a). crunch. Qed.
+Theorem P_lrucache_move_to_table_loop_result : forall h a a' n, h a = Some n ->
+  result (run lrucache_move_to_table_loop [VNode n] [a'] (free h a)) = (h' <- move h a a' ;; Some (h', None)).
+Proof. intros h a a' n Ha. unfold move, run. rewrite Ha. crunch. Qed.
+
+(* ---------- LruCache::lru_ptr / mru_ptr = StepB.b_lru / b_mru ---------- *)
+Definition ptr_opt (o : option addr) : rval := match o with Some p => RVSomePtr p | None => RVNone end.
+Theorem P_lrucache_lru_ptr : forall g,
+  result (run lrucache_lru_ptr [VPtr (gseal g)] [] (gh g)) = (r <- b_lru g ;; Some (gh g, Some (ptr_opt r))).
+Proof.
+  intros [h seal l]. unfold b_lru, run. cbn [gh gseal]. crunch. destruct (N.eqb (nprev n) seal); reflexivity.
+Qed.
+Theorem P_lrucache_mru_ptr : forall g,
+  result (run lrucache_mru_ptr [VPtr (gseal g)] [] (gh g)) = (r <- b_mru g ;; Some (gh g, Some (ptr_opt r))).
+Proof.
+  intros [h seal l]. unfold b_mru, run. cbn [gh gseal]. crunch. destruct (N.eqb (nnext n) seal); reflexivity.
+Qed.
+
+(* ---------- the cursors of src/iter.rs ----------
+   Heap.cursor keeps `next` as an option (None = null) and `next_back` as an address, 0 standing for null *)
+Definition back_addr (b : option addr) : addr := match b with Some x => x | None => 0 end.
+Definition cursor_of_rval (r : option rval) : option cursor :=
+  match r with Some (RVCursor n b) => Some {| c_next := n; c_back := back_addr b |} | _ => None end.
+Definition cursor_args (s : cursor) : list value :=
+  [match c_next s with Some a => VPtr a | None => VNull end; VPtr (c_back s)].
+Definition cursor_of_env (en : envt) : option cursor :=
+  match lookup "self.next" en, lookup "self.next_back" en with
+  | Some v1, Some v2 =>
+      match as_ptr v1, as_ptr v2 with
+      | Some n, Some b => Some {| c_next := n; c_back := back_addr b |}
+      | _, _ => None
+      end
+  | _, _ => None
+  end.
+Definition yield_ref (r : option rval) : option (option addr) :=
+  match r with Some RVNone => Some None | Some (RVSomeRefs a) => Some (Some a) | _ => None end.
+Definition yield_kv (r : option rval) : option (option (key * val)) :=
+  match r with Some RVNone => Some None | Some (RVSomeKV k v) => Some (Some (k, v)) | _ => None end.
+(* what next() / next_back() leave behind: heap, yielded item, the cursor in `self` *)
+Definition obs_iter (o : option state) :=
+  match o with Some st => Some (hp st, yield_ref (ret st), cursor_of_env (env st)) | None => None end.
+Definition obs_taking (o : option state) :=
+  match o with Some st => Some (hp st, yield_kv (ret st), cursor_of_env (env st)) | None => None end.
+Definition obs_new (o : option state) :=
+  match o with Some st => Some (hp st, cursor_of_rval (ret st)) | None => None end.
+
+(* Iter::new, TakingIterator::new = cursor_new *)
+Theorem P_iter_new : forall h seal e,
+  obs_new (run iter_new [VPtr seal; VBool e] [] h) = (c <- cursor_new h seal e ;; Some (h, Some c)).
+Proof. intros h seal [|]; unfold run, cursor_new; crunch. Qed.
+Theorem P_takingiterator_new : forall h seal e,
+  obs_new (run takingiterator_new [VPtr seal; VBool e] [] h) = (c <- cursor_new h seal e ;; Some (h, Some c)).
+Proof. intros h seal [|]; unfold run, cursor_new; crunch. Qed.
+
+(* Iter::next = it_next, Iter::next_back = it_next_back *)
+Theorem P_iter_next : forall h s,
+  obs_iter (run iter_next (cursor_args s) [] h) = (r <- it_next h s ;; Some (h, Some (fst r), Some (snd r))).
+Proof.
+  intros h [[a|] b]; unfold run, it_next, cursor_args; cbn [c_next c_back]; [|reflexivity].
+  simp. destruct (N.eqb a b); crunch.
+Qed.
+Theorem P_iter_next_back : forall h s,
+  obs_iter (run iter_next_back (cursor_args s) [] h) = (r <- it_next_back h s ;; Some (h, Some (fst r), Some (snd r))).
+Proof.
+  intros h [[a|] b]; unfold run, it_next_back, cursor_args; cbn [c_next c_back]; [|reflexivity].
+  simp. destruct (N.eqb b a); crunch.
+Qed.
+
+(* TakingIterator::next = tk_next, TakingIterator::next_back = tk_next_back (B/TakingB.v) *)
+Theorem P_takingiterator_next : forall h s,
+  obs_taking (run takingiterator_next (cursor_args s) [] h) =
+  (r <- tk_next h s ;; Some (fst (fst r), Some (snd (fst r)), Some (snd r))).
+Proof.
+  intros h [[a|] b]; unfold run, tk_next, take_at, cursor_args; cbn [c_next c_back]; [|reflexivity].
+  simp. case_on (h a). case_on (npay n). destruct (N.eqb a b); crunch.
+Qed.
+Theorem P_takingiterator_next_back : forall h s,
+  obs_taking (run takingiterator_next_back (cursor_args s) [] h) =
+  (r <- tk_next_back h s ;; Some (fst (fst r), Some (snd (fst r)), Some (snd r))).
+Proof.
+  intros h [[a|] b]; unfold run, tk_next_back, take_at, cursor_args; cbn [c_next c_back]; [|reflexivity].
+  simp. case_on (h b). case_on (npay n). destruct (N.eqb b a); crunch.
+Qed.
+
+(* ---------- no axioms ---------- *)
+Print Assumptions P_coverage.
+Print Assumptions P_no_unknown.
+Print Assumptions T_entryptr_unhinge.
+Print Assumptions T_entryptr_insert.
+Print Assumptions T_entry_unhinge.
+Print Assumptions T_lrucache_set_head.
+Print Assumptions T_lrucache_touch_ptr.
+Print Assumptions T_lrucache_clear.
+Print Assumptions T_drain_new.
+Print Assumptions T_lrucache_move_to_table.
+Print Assumptions T_lrucache_move_to_table_loop.
+Print Assumptions T_lrucache_lru_ptr.
+Print Assumptions T_lrucache_mru_ptr.
+Print Assumptions T_iter_new.
+Print Assumptions T_iter_next.
+Print Assumptions T_iter_next_back.
+Print Assumptions T_takingiterator_new.
+Print Assumptions T_takingiterator_next.
+Print Assumptions T_takingiterator_next_back.
+Print Assumptions P_entryptr_unhinge.
+Print Assumptions P_entryptr_insert.
+Print Assumptions P_entry_unhinge.
+Print Assumptions P_entry_unhinge_at.
+Print Assumptions P_lrucache_set_head.
+Print Assumptions P_lrucache_touch_ptr.
+Print Assumptions b_reset_seal_reset.
+Print Assumptions P_lrucache_clear.
+Print Assumptions P_drain_new.
+Print Assumptions P_drain_new_cursor_first.
+Print Assumptions P_lrucache_move_to_table.
+Print Assumptions P_lrucache_move_to_table_loop.
+Print Assumptions P_lrucache_move_to_table_loop_result.
+Print Assumptions P_lrucache_lru_ptr.
+Print Assumptions P_lrucache_mru_ptr.
+Print Assumptions P_iter_new.
+Print Assumptions P_takingiterator_new.
+Print Assumptions P_iter_next.
+Print Assumptions P_iter_next_back.
+Print Assumptions P_takingiterator_next.
+Print Assumptions P_takingiterator_next_back.
